@@ -32,7 +32,7 @@ VERIF_FAIL = [
 ]
 RLIMIT = ("Resource limit (rlimit) exceeded", "while loop: Resource limit")
 
-TAG_RE = re.compile(r"/\*@\s*([C0-9, ]+?)\s*(?:#(\w+))?\s*(?:unless=(\w+))?\s*\*/")
+TAG_RE = re.compile(r"/\*@\s*([C0-9, ]+?)\s*(?:#(\w+))?\s*(?:unless=(\w+))?\s*(shared)?\s*\*/")
 
 
 def _norm(s, n=70):
@@ -198,7 +198,7 @@ def run_unit(name, repo=None, rlimit=None, outdir=None, extra_args=(), solver=No
             if fn:
                 break
         # tags: nearest /*@..*/ before the highlight on the primary line
-        tags, label, unless = None, None, None
+        tags, label, unless, shared = None, None, None, False
         hint_fail = False
         for s in [ps] + [x for x in spans if x is not ps]:
             txt = s["text"][0]["text"] if s.get("text") else ""
@@ -211,6 +211,7 @@ def run_unit(name, repo=None, rlimit=None, outdir=None, extra_args=(), solver=No
                 tags = [t.strip() for t in best.group(1).split(",") if t.strip()]
                 label = best.group(2)
                 unless = best.group(3)
+                shared = bool(best.group(4))
                 break
         snippet = ""
         if ps.get("text"):
@@ -243,6 +244,7 @@ def run_unit(name, repo=None, rlimit=None, outdir=None, extra_args=(), solver=No
             "id": "%s::%s::%s::%s" % (name, fn["qual"] if fn else "?", kind, label or _norm(snippet, 60)),
             "tags": tags,
             "unless": unless,
+            "shared": shared,
             "hint_fail": hint_fail,
             "snippet": snippet,
             "message": msg,
@@ -333,7 +335,7 @@ def _clause_spans(unit, f):
     spans = []
     for i, c in enumerate(cl):
         last = (cl[i + 1]["out_line"] - 1) if i + 1 < len(cl) else f["body_out_first"] - 1
-        spans.append((c["label"], c["tags"], c["out_line"], last, c.get("unless")))
+        spans.append((c["label"], c["tags"], c["out_line"], last, (c.get("unless"), c.get("shared"))))
     return spans
 
 
@@ -404,7 +406,7 @@ def _split_run(unit, path, outdir, fn_quals, rlimit, single_ok=False):
             f, label, tags, a, vpath, unless = job
             if failed:
                 fails.append({"unit": unit.name, "fn": f["qual"], "kind": "post", "label": label,
-                              "id": "%s::%s::post::%s" % (unit.name, f["qual"], label), "tags": tags, "unless": unless,
+                              "id": "%s::%s::post::%s" % (unit.name, f["qual"], label), "tags": tags, "unless": unless[0], "shared": bool(unless[1]),
                               "message": "postcondition not satisfied (clause verified in isolation)", "at": _origin(unit, a),
                               "exit": exit_loc, "unit_line": a, "rendered": rendered})
             elif rl:
